@@ -603,7 +603,7 @@ func (e *Engine) newCtx(k *Contract, fi *funcInfo) *Ctx {
 	c := &Ctx{eng: e, con: k, decls: map[string]string{}, occ: map[string]int{}, loopOrd: map[ast.Stmt]int{}, callOrd: map[*ast.CallExpr]int{},
 		retOrd: map[*ast.ReturnStmt]int{}, strlits: map[string]string{}, calleesUsed: map[string]bool{}, typeIDs: map[string]types.Type{},
 		ifacePreds: map[string]types.Type{}, distinctRefs: map[string]bool{}, sorts: map[string]string{}, idxVars: map[string]*types.Var{},
-		usedSpec: map[string]bool{}, ordDone: map[*ast.FuncDecl]bool{}}
+		usedSpec: map[string]bool{}, ordDone: map[*ast.FuncDecl]bool{}, byteMems: map[string]bool{}, byteArrs: map[string]bool{}}
 	if fi != nil {
 		c.pkg, c.fn, c.decl = fi.pkg, fi.fn, fi.decl
 	}
@@ -656,6 +656,13 @@ func (e *Engine) verifyFunc(key string) (c *Ctx, err error) {
 		for _, n := range fld.Names {
 			if pv, ok := info.Defs[n].(*types.Var); ok {
 				val := c.freshValue(s, pv.Name(), pv.Type())
+				if sv, ok := val.(SliceV); ok {
+					// the position of a slice inside its backing array is not observable: view it from its own start
+					s.assume(eq(sv.Off, "0"))
+					sv.Off = "0"
+					val = sv
+					c.note("slice parameters are viewed from offset 0 of their backing array (unobservable in Go); distinct slice parameters are assumed not to overlap partially")
+				}
 				if c.boxed(pv) {
 					c.declVar(s, pv, val)
 				} else {
